@@ -11,14 +11,92 @@ TRUST = ("rustc nightly's HIR/MIR construction and type/trait resolution for the
          "of std (Mutex, mpsc, atomics), timer, quick-xml, rocket, ureq, boa; dependency crates are not analysed")
 
 # id -> (technique, level text, level note, design ref)
+def C(tech, decides, not_decided, ref):
+    return (tech, "Decides (statically, on the compiler's resolved HIR/MIR of /repo's working tree): " + decides +
+            " It does NOT decide: " + not_decided, TRUST, ref)
+
+
 CHECKS = {
-    "C01": ("custom HIR/MIR rules over rustc_private facts: who-may-mutate (K1), value provenance (K3), W3C pseudo-code vocabulary coverage (K12)",
-            "Decides structural necessary conditions of configuration legality: the configuration has exactly three writers, the "
-            "values added/deleted are the sorted entry/exit sets, every isDescendant call in the entry/exit-set procedures has the "
-            "argument roles of the W3C algorithm, history states never reach the entry set, OrderedSet has set semantics, and all 8 "
-            "entry/exit-set procedures cover the vocabulary of their pseudo-code. It does NOT decide that every reachable "
-            "configuration of every document is legal (behaviour); that rests on the W3C algorithm itself.",
-            "Assumes the W3C algorithm is correct for conformant documents. " + TRUST, "§5 C01"),
+    "C01": C("custom HIR/MIR rules over rustc_private facts: who-may-mutate (K1), value provenance (K3), W3C pseudo-code vocabulary coverage (K12)",
+             "the configuration has exactly three writers; the values added/deleted are the sorted entry/exit sets; every isDescendant call in the "
+             "entry/exit-set procedures has the argument roles of the W3C algorithm; history states never reach the entry set; OrderedSet has set "
+             "semantics; the 8 entry/exit-set procedures cover the vocabulary of their pseudo-code.",
+             "that every reachable configuration of every document is legal (behaviour; rests on the W3C algorithm itself).", "§5 C01"),
+    "C02": C("custom HIR/MIR rules: spec vocabulary coverage (K12), comparator tables by abstract evaluation (K4), guard/first-match shape (K2), determinism query over the call-graph region (K9)",
+             "selection iterates atomic states in document order, state before ancestors, transitions in document order, first enabled wins; the five "
+             "comparator tables; pre-emption branches of removeConflictingTransitions; microstep = exit, content, enter once each in order; no hash-order "
+             "iteration or clock read influences the microstep region (audited exceptions).",
+             "equality with the W3C result on every document and history; guard values.", "§5 C02"),
+    "C03": C("custom HIR/MIR rules: dominance in mainEventLoop (K2), who-may-touch the internal queue (K1), routing provenance (K3)",
+             "eventless selection dominates the internal-queue test which dominates dequeue; recv is reachable only with the macrostep complete; FIFO "
+             "queue operations and the only dequeue site; <raise> and '#_internal' go to the internal queue, '' to the external one; microstep only for a "
+             "non-empty set; the dequeued event is the one set as _event and selected on.",
+             "channel semantics (exactly-once, arrival order: std contract).", "§5 C03"),
+    "C04": C("custom HIR rules: dispatch/pairing tables (K4), who-compares-qualified-names (K1), raw-slice taint (K8), doc_id provenance (K1/K2)",
+             "every element constant is dispatched and every executable-content region is closed with the tag it was opened with; allowed-parent tables are "
+             "sibling-consistent; names are compared through local_name() only; raw document slices pass an unescape before being stored; doc ids are drawn once "
+             "per declaration in the start handler.",
+             "that the model mirrors the document for every document and rendering (an input/output equivalence over an infinite language).", "§5 C04"),
+    "C06": C("custom HIR/MIR rules: dominance of history recording over removal (K2), filter and key provenance (K3), who-may-write historyValue (K1)",
+             "history values are recorded from the configuration before anything is removed; deep/shallow filters and keys; the history branch of "
+             "addDescendantStatesToEnter and getEffectiveTargetStates; order onentry, initial content, default history content from the per-microstep table.",
+             "equality of restored and recorded configuration over histories.", "§5 C06"),
+    "C07": C("custom HIR/MIR rules: guard shape of the final branch (K2/K3), reachability after running=false in the MIR CFG (K2), spec vocabulary coverage (K12)",
+             "done.state.<parent> with evaluated donedata, done.state.<grandparent> iff parallel and every child region final, one enqueue each; running=false "
+             "only for a top-level final or the cancel event; nothing is selected/executed after running=false before the next loop test; exitInterpreter "
+             "post-dominates; done.invoke addressing.",
+             "'exactly once' counts over event histories.", "§5 C07"),
+    "C08": C("custom HIR rules: sibling agreement of executeContent loops (K4), branch polarity (K2), error-discipline fixpoint over fallible/raising summaries (K2)",
+             "content runs in Vec order and stops at the first false; if/else polarity; every call to a fallible evaluation API reaches an error-event enqueue on its "
+             "Err path (or hands the Err on); assign writes only occupied writable entries; foreach sets item/index before the body.",
+             "which branch runs for given data (values).", "§5 C08"),
+    "C09": C("custom HIR/MIR rules: sibling agreement of the three In() implementations and two set_event tables (K4), read-only installation and deep read-only (K2/K3), dominance in interpret/enterStates (K2)",
+             "In() tests the live configuration; the seven _event fields are fed from the matching Event fields; system variables are installed read-only and "
+             "every write through a value is guarded by is_readonly, including values reached through member/index access; initialisation order and late binding.",
+             "what _event holds at every evaluation point.", "§5 C09"),
+    "C10": C("custom HIR rules with partial evaluation: priority/associativity tables extracted from the scan and tie-break (K4), operator dispatch tables (K4), numeric tower (K4), get_copy field coverage (K11)",
+             "operator priority classes; grouping direction per class; each Operator variant maps to its own operation_*; Integer x Integer stays Integer with "
+             "saturating ops, mixed is Double, divide is Double; the 13 get_copy implementations rebuild every field; cache keys.",
+             "the value of an arbitrary expression; whitespace independence of the lexer.", "§5 C10"),
+    "C11": C("diverging-edge audit over the call-graph region (K5) with checked len-guard discharge and guard-count fingerprints; lock nesting from a MIR held-guard dataflow (K6); recursion SCCs; lexer un-read discipline (K2)",
+             "every panic-capable edge reachable from the rfsm-expression entry points is a harmless class, structurally discharged, audited with a reason or a finding; "
+             "only three token kinds reach the folding code; no second value lock without a ptr_eq guard; recursion cycles are listed; push_back only after a real read; "
+             "every loop of lexer and parser consumes input.",
+             "termination in general; time bounds.", "§5 C11"),
+    "C12": C("diverging-edge audit from the platform-thread roots (K5), failure-exit accounting in the send/invoke surface (K2), I/O-under-lock from the lock analysis (K6)",
+             "every panic-capable edge reachable from the session thread, the delayed-send timer closure and the HTTP handlers is classified; the panicking XML reader is "
+             "not reachable from a session thread; every failure exit of send/invoke raises the error event or logs; no parsing or file/network I/O under the session lock.",
+             "liveness of arbitrary documents (an eventless loop is legal SCXML); host-supplied code.", "§5 C12"),
+    "C13": C("custom HIR/MIR rules: single consumer and field ownership (K1), discarding-path enumeration in the dequeue loop (K2), thread-role reachability (K7), lock set at recv (K6)",
+             "one consumer of the external queue; the only discarding path of the dequeue filter is the cancelled-child rule; the W3C procedures run on the session "
+             "thread only; the blocking wait holds only the receiver lock and no producer needs it.",
+             "per-sender FIFO / exactly-once of std::sync::mpsc (assumed); anything quantifying over interleavings.", "§5 C13"),
+    "C14": C("custom HIR/MIR rules: who-may-touch statesToInvoke/child_sessions (K1), ordering by MIR reachability (K2), provenance of finalize/autoforward targets (K3)",
+             "statesToInvoke add/delete/clear sites and their order relative to the exit loop, the invoke loop and recv; child_sessions insert only on Ok, removal "
+             "before the cancel send, cancellation of exactly the exited state's invokes; finalize position and guard; autoforward must not depend on the event's "
+             "invoke id; passed data only for declared <data>.",
+             "relative timing of child events, completion and cancellation.", "§5 C14"),
+    "C15": C("custom HIR rules with partial evaluation of the dispatch per representative target (K4), write-set of the event between construction and enqueue (K1/K3), constant agreement (K4), atomic-use query (K1)",
+             "the dispatch table of the SCXML processor (one delivery per target form, none in a loop), origin/origintype stamped before dispatch, event fields flow "
+             "unchanged, reply-address constants agree between get_location and the dispatcher, id counters used only through fetch_add.",
+             "delivery across real threads (channel contract).", "§5 C15"),
+    "C16": C("custom HIR/MIR rules: capture set and reachability of the timer closure (K3/K7), must-consume of timer::Guard in MIR (K2), who-may-touch delayed_send (K1), unit table by partial evaluation (K4)",
+             "the delayed-send closure captures only evaluated owned values and reaches no evaluation API; every Guard is stored or ignored; delayed_send "
+             "insert/remove sites and keys, and that an insert replaces no pending guard; timer branch iff delay > 0; duration units; the Timer is owned by Fsm.",
+             "'not early', due-time order, exactly-once at run time (the timer crate's contract and real time).", "§5 C16"),
+    "C17": C("lock-order analysis: MIR held-guard dataflow + interprocedural acquisition summaries + thread roles + own/new/foreign provenance of per-session locks (K6, K7)",
+             "no feasible cycle in the lock-order graph of the platform's Mutex classes (feasibility: distinct threads of the roles that reach the holders, agreeing on the "
+             "per-session lock instances); no same-class nesting without ptr_eq guard / audited descent / fresh instance; no wait on another thread while holding a lock "
+             "except the receiver lock at recv.",
+             "fairness or progress beyond absence of lock cycles; host-supplied actions/processors; Mutex is assumed the only blocking primitive.", "§5 C17"),
+    "C19": C("custom HIR rules: byte/char unit lattice over string positions (K8), result-leaf enumeration of nameMatch (K2), case-fold query with positive control (K1), normalisation closure shape (K2)",
+             "every string position in nameMatch is addressed in the unit it was computed in; every true result is wildcard / full match / token-boundary match; no case "
+             "folding between the event attribute and the comparison; the reader strips exactly trailing '.*' and '.' repeatedly; wildcard is events.contains('*').",
+             "the matching relation over all names (values).", "§5 C19"),
+    "C20": C("custom HIR/MIR rules: single guarded send in the HTTP handler (K2), key/constant agreement between sender and receiver (K4), route/location agreement by decoding the format template (K4)",
+             "the handler sends at most once, only with session and event name present, and answers Ok only after a successful send; form keys agree between "
+             "BasicHTTPEventIOProcessor::send and the receiver; the published location equals the mounted route and port.",
+             "URL encoding symmetry (ureq/rocket), status codes on the wire, concurrent posts.", "§5 C20"),
 }
 
 NOT_YET = {}
